@@ -122,3 +122,34 @@ func C10_Reader() {
 		nd.Assert(isErr(err, ErrInjected), "the error returned is the reader's error, not a made-up syntax error")
 	}
 }
+
+// C10_ErrKinds: the identity of the reader's error must not matter: every
+// error value other than io.EOF itself is a failure (sentinels of package io
+// that resemble an end of input, and an unrelated error whose text is "EOF").
+type eofLookalike struct{}
+
+func (eofLookalike) Error() string { return "EOF" }
+
+func c10Kinds(r []rune) {
+	kinds := []error{io.ErrUnexpectedEOF, io.ErrClosedPipe, io.ErrNoProgress, eofLookalike{}}
+	want := kinds[nd.Choice(len(kinds))]
+	s := NewScanner(r)
+	s.FailAt = nd.IntRange(0, len(r))
+	s.Once = nd.Choice(2) == 1
+	s.Err = want
+	_, _, err := parser.ParseCommands(nil, "src", s)
+	failed := s.Failed
+	s.Frozen = true
+	nd.Drain()
+	if !failed {
+		return
+	}
+	nd.Cover("fault")
+	nd.Assert(err != nil, "a read fault is not reported as success, whatever the error value")
+	if err != nil {
+		nd.Assert(isErr(err, want), "the error returned is the reader's error, whatever the error value")
+	}
+}
+
+func C10_ErrKinds_T0() { c10Kinds([]rune(Templates[nd.Choice(len(Templates))])) }
+func C10_ErrKinds_F2() { c10Kinds(freeRunes(2, false)) }
